@@ -143,7 +143,13 @@ def run(ctx):
             if i % 8 == 3:
                 S0[0, 0] = np.nan                # the call may raise; the argument must stay untouched
             S = prep(S0, i % 2 == 0, i % 3 == 0)
-            lam = prep(np.full((n, n), 0.2), i % 2 == 0, i % 3 == 1) if i % 2 == 1 or i % 4 == 0 else 0.2
+            if i % 2 == 1 or i % 4 == 0:
+                L0 = np.full((n, n), 0.2)
+                if i % 3 == 0:
+                    L0 = np.tril(rs.uniform(0.05, 0.5, size=(n, n)))      # asymmetric: still the caller's array
+                lam = prep(L0, i % 2 == 0, i % 3 == 1)
+            else:
+                lam = 0.2
             cb = (lambda rho, rp, tp, rd, td: rho * 1.5 if rp > rd else rho) if i % 5 == 0 else None
             b = (snap(S), snap(lam))
             try:
